@@ -395,6 +395,28 @@ def _empty_format(cx, repo):
     ok = any(b == "new_fmt_obj._set_parsed_fmt(parsed_fmt, self._ppt_fmt)" for b in body) and any(b == "self._ppt_fmt = new_fmt_obj" for b in body) and \
         any(b == "new_fmt_obj = self._ppt_fmt.clone()" for b in body)
     cx.ob("R13d", set_fmt, ok, "set_fmt applies the parsed format to a clone, with the current format as reference" if ok else "set_fmt wiring altered")
+    # ... on EVERY path: a path that leaves set_fmt before the clone is installed keeps the current format object, and with it the
+    # state of earlier printings (negotiated column widths, the lines-skipped flag that decides whether str(fmt) shows the limits)
+    inst = [s_ for s_ in set_fmt.body if isinstance(s_, ast.Assign) and norm(s_.targets[0]) == "self._ppt_fmt"]
+    if ok and inst:
+        early = [r_ for r_ in walk_local(set_fmt) if isinstance(r_, ast.Return) and r_.lineno < inst[0].lineno]
+        inplace = []
+        for n_ in walk_local(set_fmt):
+            if getattr(n_, "lineno", 10 ** 9) >= inst[0].lineno:
+                continue
+            if isinstance(n_, ast.Call) and isinstance(n_.func, ast.Attribute) and norm(n_.func.value).startswith("self._ppt_fmt") and n_.func.attr != "clone":
+                inplace.append(n_)
+            if isinstance(n_, (ast.Assign, ast.AugAssign)):
+                for t_ in (n_.targets if isinstance(n_, ast.Assign) else [n_.target]):
+                    if isinstance(t_, (ast.Attribute, ast.Subscript)) and norm(t_).startswith("self._ppt_fmt."):
+                        inplace.append(n_)
+        if early and inplace:
+            cx.ob("R13d", inplace[0], False, semantic=True, detail=f"`{norm(inplace[0])[:70]}` changes the current format object in place and set_fmt returns (line {early[0].lineno}) without installing a "
+                  "fresh clone: what earlier printings left on that object (negotiated widths of ranged columns, the lines-skipped flag) survives the re-format, "
+                  "so str(table.fmt) no longer reproduces the table")
+        else:
+            cx.need(not early, "R13d", early[0] if early else set_fmt, "set_fmt has an exit before the cloned format is installed (not decided whether that path may keep the old object)")
+            cx.ob("R13d", set_fmt, True, "every path through set_fmt installs a fresh clone (no exit before the install, the current object is not modified in place)", stmt="set_fmt paths")
     # set_limits ignores None and takes (first, last) in order
     sl = cx.func(REL, "PPTableFormat.set_limits", "R13d")
     st = [s for s in walk_local(sl) if isinstance(s, ast.Assign) and isinstance(s.targets[0], ast.Tuple)]
